@@ -91,6 +91,14 @@ def lane_terms(fn):
     return lanes, widths, problems
 
 
+def is_union(db, t):
+    t = t.replace('const ', '').strip()
+    if 'union' in t:
+        return True          # unnamed local union
+    r = db.records.get(t)
+    return bool(r and r.get('union'))
+
+
 def classify(lanes, n):
     kinds = set()
     if lanes == {k: 8 * k for k in range(n)}:
@@ -199,7 +207,7 @@ def rules(chk, db):
         ok = False
         why = ''
         if arg0.get('k') == 'mem' and ir.strip(arg0['b']).get('k') == 'ref' and ir.strip(arg0['b']).get('id') in locals_ and \
-                'union' in locals_[ir.strip(arg0['b'])['id']]['t'] and arg0['t'].startswith('unsigned char['):
+                is_union(db, locals_[ir.strip(arg0['b'])['id']]['t']) and arg0['t'].startswith('unsigned char['):
             v = locals_[ir.strip(arg0['b'])['id']]
             init = v.get('init')
             els = init['el'] if init and init.get('k') == 'ilist' else []
@@ -218,7 +226,7 @@ def rules(chk, db):
                 v = locals_[ir.strip(r['b'])['id']]
                 init = v.get('init')
                 els = init['el'] if init and init.get('k') == 'ilist' else []
-                if 'union' in v['t'] and len(els) == 1 and ir.strip(els[0]) is ir.strip(call) or (
+                if is_union(db, v['t']) and len(els) == 1 and ir.strip(els[0]) is ir.strip(call) or (
                         len(els) == 1 and any(c is call for c in ir.calls(els[0]))):
                     good = r.get('t', '').replace('const ', '') == t
             if not good:
